@@ -103,6 +103,14 @@ impl Project {
         }
     }
     pub fn files(self) -> Vec<PathBuf> {
+        if self == Project::Playground {
+            // Not part of the /repo corpus: read the directory itself.
+            let mut v: Vec<PathBuf> = std::fs::read_dir(Path::new(self.path()).join("src"))
+                .map(|d| d.filter_map(|e| e.ok().map(|e| e.path())).filter(|p| p.extension().is_some_and(|e| e == "cairo")).collect())
+                .unwrap_or_default();
+            v.sort();
+            return v;
+        }
         let mut v: Vec<PathBuf> = crate::corpus::all_files()
             .into_iter()
             .filter(|p| p.starts_with(self.path()) && p.extension().is_some_and(|e| e == "cairo"))
